@@ -232,11 +232,10 @@ def _order_curie_remapping(
     # to the same new prefix.
     value_counter = defaultdict(list)
     for value in curie_remapping.values():
-        value_counter[converter.standardize_prefix(value)].append(value)
+        # a new prefix that the converter does not know yet stands for itself
+        value_counter[converter.standardize_prefix(value, passthrough=True)].append(value)
     duplicate_values = {
-        k: Counter(values)
-        for k, values in value_counter.items()
-        if len(values) > 1 and k is not None
+        k: Counter(values) for k, values in value_counter.items() if len(values) > 1
     }
     if duplicate_values:
         raise DuplicateValues(f"Duplicate values in remapping: {duplicate_values}")
